@@ -320,7 +320,8 @@ def manager_case(draw):
             "dict_order": draw(st.permutations(list(range(nsp))))}
 
 
-def check_manager(case):
+def build_manager(case):
+    """The system, topologies and end molecules of a manager_case(); returns (manager, specs).  Shared with C06 / C09."""
     rng = np.random.default_rng(case["seed"])
     specs = {}
     records = []
@@ -344,6 +345,11 @@ def check_manager(case):
     man = lib("manager", Manager.from_files, gro, *itps)
     for sp in case["species"]:
         lib("end", man.add_end_molecule, build_molecule(specs[(sp["name"], "end")]))
+    return man, specs
+
+
+def check_manager(case):
+    man, specs = build_manager(case)
     restr = {n: [tuple(r) for r in o["restr"]] for n, o in case["opts"].items() if "restr" in o}
     deform = {n: tuple(o["deform"]) for n, o in case["opts"].items() if "deform" in o}
     ignore = {n: o["ignore"] for n, o in case["opts"].items() if "ignore" in o}
